@@ -9,7 +9,8 @@ package main
 //
 //	c08CaptureUnderLock   DB.Checkpoint: the WAL `Rotate` (assigned back to the db's writer field) and the
 //	                      checkpoint list's `Add` of the previous writer both happen inside one Lock…Unlock section
-//	                      of the same mutex (one atomic `checkpoint` action)
+//	                      of the same mutex, and every argument of `Add` (level list, sequence number, writer) is read inside
+//	                      that section — no value obtained before the Lock (one atomic `checkpoint` action)
 //	c08SaveWalThenDoc     DB.Checkpoint: the previous writer's `Save()` happens before the checkpoint list's `Save(fs)`
 //	                      (`saveWal` then `saveDoc`), both after the lock section
 //	c08SaveUnderListLock  CheckpointList.Save: Lock + deferred Unlock of one mutex are its first statements, no other
@@ -204,12 +205,118 @@ func c08CheckpointShape(file *ast.File) (capture, order bool) {
 	})
 	// no second lock section of that mutex in between, everything in the synchronous part
 	relock := c08Find(evs, lock+1, func(e c08Event) bool { return e.name == "Lock" && e.recv == mu && !e.inLit })
-	capture = add > lock && add < end && rot > lock && rot < end && !evs[rot].inLit && (relock < 0 || relock > end)
+	capture = add > lock && add < end && rot > lock && rot < end && !evs[rot].inLit && (relock < 0 || relock > end) &&
+		c08AddArgsReadUnderLock(fn, prevVar)
 	// the previous writer's Save() before the list's Save(fs); both after the lock section
 	walSave := c08Find(evs, 0, func(e c08Event) bool { return e.name == "Save" && e.recv == prevVar })
 	docSave := c08Find(evs, 0, func(e c08Event) bool { return e.name == "Save" && e.recv != prevVar && e.nargs == 1 })
 	order = walSave >= 0 && docSave > walSave && (evs[unlock].defer_ || walSave > unlock)
 	return capture, order
+}
+
+// c08AddArgsReadUnderLock: everything handed to the checkpoint list's Add — the level list, the sequence number, the
+// sealed writer — is read inside the lock section: an argument is built from parameters, from fields of the receiver
+// (read at the call, i.e. under the lock) and from locals that are (all) assigned after the Lock call. A value obtained
+// before the Lock (a level-list snapshot taken for a log line, say) would not be captured atomically with the rotation.
+func c08AddArgsReadUnderLock(fn *ast.FuncDecl, prevVar string) bool {
+	var lockPos token.Pos
+	var add *ast.CallExpr
+	ast.Inspect(fn.Body, func(x ast.Node) bool {
+		if _, ok := x.(*ast.FuncLit); ok {
+			return false
+		}
+		c, ok := x.(*ast.CallExpr)
+		if !ok {
+			return true
+		}
+		sel, ok := c.Fun.(*ast.SelectorExpr)
+		if !ok {
+			return true
+		}
+		if sel.Sel.Name == "Lock" && lockPos == 0 {
+			lockPos = c.Pos()
+		}
+		if sel.Sel.Name == "Add" && add == nil {
+			for _, a := range c.Args {
+				if id, ok := a.(*ast.Ident); ok && id.Name == prevVar {
+					add = c
+				}
+			}
+		}
+		return true
+	})
+	if lockPos == 0 || add == nil {
+		return false
+	}
+	okNames := map[string]bool{"nil": true, "true": true, "false": true}
+	if fn.Recv != nil {
+		for _, f := range fn.Recv.List {
+			for _, n := range f.Names {
+				okNames[n.Name] = true
+			}
+		}
+	}
+	if fn.Type.Params != nil {
+		for _, f := range fn.Type.Params.List {
+			for _, n := range f.Names {
+				okNames[n.Name] = true
+			}
+		}
+	}
+	// where each local is assigned
+	assigned := map[string][]token.Pos{}
+	ast.Inspect(fn.Body, func(x ast.Node) bool {
+		switch v := x.(type) {
+		case *ast.AssignStmt:
+			for _, l := range v.Lhs {
+				if id, ok := l.(*ast.Ident); ok {
+					assigned[id.Name] = append(assigned[id.Name], v.Pos())
+				}
+			}
+		case *ast.ValueSpec:
+			for _, n := range v.Names {
+				assigned[n.Name] = append(assigned[n.Name], v.Pos())
+			}
+		}
+		return true
+	})
+	good := true
+	for _, a := range add.Args {
+		ast.Inspect(a, func(x ast.Node) bool {
+			switch v := x.(type) {
+			case *ast.SelectorExpr:
+				ast.Inspect(v.X, func(y ast.Node) bool { // the selected name itself is a field / method, not a local
+					if id, ok := y.(*ast.Ident); ok {
+						if !okNames[id.Name] {
+							ps := assigned[id.Name]
+							if len(ps) == 0 {
+								return true // package name or builtin
+							}
+							for _, p := range ps {
+								if p < lockPos || p > add.Pos() {
+									good = false
+								}
+							}
+						}
+					}
+					return true
+				})
+				return false
+			case *ast.Ident:
+				if okNames[v.Name] {
+					return true
+				}
+				ps := assigned[v.Name]
+				for _, p := range ps {
+					if p < lockPos || p > add.Pos() {
+						good = false
+					}
+				}
+			}
+			return true
+		})
+	}
+	return good
 }
 
 // c08SaveShape: CheckpointList.Save is one critical section of the list mutex.
